@@ -202,6 +202,20 @@ func states() []state {
 		}
 		w.makeBlocks()
 	}
+	commitHn := func(w *world) { // one more honest height on top of commitH1
+		h := w.h
+		w.T()
+		w.prop(0, 0)
+		w.partsAll(0, 0)
+		w.pv(0, 0, w.ids[0])
+		w.pv(1, 0, w.ids[0])
+		w.pc(0, 0, w.ids[0])
+		w.pc(1, 0, w.ids[0])
+		if w.n.App.Height() != h {
+			vk.Fatalf("scripted prefix did not commit height %d", h)
+		}
+		w.makeBlocks()
+	}
 	return []state{
 		{"h1/NewHeight", func(w *world) {}},
 		{"h1/Propose-no-proposal", func(w *world) { w.T() }},
@@ -226,6 +240,8 @@ func states() []state {
 		}},
 		{"h2/NewHeight", commitH1},
 		{"h2/Propose", func(w *world) { commitH1(w); w.T() }},
+		// a node that prunes its history (DeleteHistoricalData): height 1 is gone from the block store
+		{"h3/NewHeight/height1-pruned", func(w *world) { commitH1(w); commitHn(w); w.n.App.Pruned[1] = true }},
 	}
 }
 
@@ -237,6 +253,7 @@ type hostile struct {
 	msg        func(w *world) interface{}   // typed message (encoded with the registered type prefix) ...
 	raw        func(w *world) []byte        // ... or raw bytes
 	follow     func(w *world) []interface{} // further typed messages of the same peer on the same channel, delivered right after
+	fresh      bool                         // the peer has not announced any round step yet (first message of a new connection)
 	mustIgnore bool                         // reference predicate: invalid under every reading => digest must not change
 }
 
@@ -623,6 +640,20 @@ func stateChannelMessages() []hostile {
 			}
 		}
 	}
+	// a peer that says it is far behind (two heights back: on a pruning node that height is gone from the store)
+	for _, st := range []cstypes.RoundStepType{cstypes.RoundStepPropose, cstypes.RoundStepCommit} {
+		st := st
+		for _, lcr := range []int{-1, 0} {
+			lcr := lcr
+			add(fmt.Sprintf("NewRoundStep{h-2,r0,s%d,lcr%d}(first message of the connection)", st, lcr), cs.StateChannel, func(w *world) interface{} {
+				if w.h < 3 {
+					return nil
+				}
+				return &cs.NewRoundStepMessage{Height: w.h - 2, Round: 0, Step: st, LastCommitRound: lcr}
+			})
+			out[len(out)-1].fresh = true
+		}
+	}
 	// bit arrays whose bit count disagrees with their word count: decodable, never produced by NewBitArray
 	malformed := []struct {
 		name  string
@@ -789,7 +820,7 @@ func runCase(f *csnet.Fixture, st state, hs []hostile, cont int) outcome {
 	st.prep(w)
 	// the peer is an ordinary connected peer up to now: it has announced that it is at the node's height and round (what
 	// every peer does on connecting and at every step), so the reactor's PeerState is not the all-zero initial one
-	{
+	if len(hs) == 0 || !hs[0].fresh {
 		rs := w.n.CS.GetRoundState()
 		lcr := -1
 		if rs.Height > 1 {
@@ -808,7 +839,11 @@ func runCase(f *csnet.Fixture, st state, hs []hostile, cont int) outcome {
 		if h.raw != nil {
 			wire = append(wire, h.raw(w))
 		} else {
-			msgs := []interface{}{h.msg(w)}
+			first := h.msg(w)
+			if first == nil {
+				continue // not applicable in this state
+			}
+			msgs := []interface{}{first}
 			if h.follow != nil {
 				msgs = append(msgs, h.follow(w)...)
 			}
